@@ -119,7 +119,8 @@ def step (s : CState) (ws : List String) : Option (CState × String) :=
       some (s', "ok" ++ showOuts o ++ " H=" ++ showHandled h)
     | _, _ => some (s, "bad-op")
   | "c.sched" :: evs =>
-    -- a schedule of turns (Model/SweepTasks.lean): P@clock@msg start put, G@clock@msg start get, R@index@clock resume
+    -- a schedule of turns (Model/SweepTasks.lean): P@clock@msg start put, G@clock@msg start get, R@index@clock resume,
+    -- X@index cancel the suspended operation
     let parseEv (w : String) : Option SweepTasks.Ev :=
       match w.splitOn "@" with
       | ["P", c, m] => match c.toNat?, parseMsg m with
@@ -131,6 +132,7 @@ def step (s : CState) (ws : List String) : Option (CState × String) :=
       | ["R", i, c] => match i.toNat?, c.toNat? with
         | some i, some c => some (.resume i c)
         | _, _ => none
+      | ["X", i] => i.toNat?.map .cancel
       | _ => none
     match evs.mapM parseEv with
     | none => some (s, "bad-op")
